@@ -37,6 +37,10 @@ func rulesC03(w *World, r *Report) {
 		reach := w.reachPkg(w.decodeEntryPoints()...)
 		w.ruleAccessorKinds(r, "C03.R11 reflect accessors meet the kind they require", func(fn *ssa.Function) bool { return reach[fn] || reach[rootFn(fn)] })
 	}
+	{
+		reach := w.reachPkg(w.decodeEntryPoints()...)
+		w.ruleCommaOkSides(r, "C03.R12 a looked-up type or entry is used on the side where the lookup succeeded", 5, func(fn *ssa.Function) bool { return reach[fn] || reach[rootFn(fn)] })
+	}
 	w.ruleReadersAcceptSpecTags(r, "C03.R10 a container reader accepts every tag of its production", 3)
 	w.ruleCountGuardsTight(r, "C03.R7 count guards refuse only negative counts", 3)
 	w.ruleIndexGuardsTightPX(r, "C03.R7 index guards refuse only invalid indices")
